@@ -44,15 +44,15 @@ def load(relpath):
     return funcs, consts
 
 
-def defaults(fn):
-    """param name -> literal default value."""
+def defaults(fn, consts=None):
+    """param name -> default value (a literal, or a module-level constant)."""
     out = {}
     a = fn.args
     for p, d in zip(a.args[len(a.args) - len(a.defaults):], a.defaults):
         try:
             out[p.arg] = ast.literal_eval(d)
         except Exception:
-            out[p.arg] = None
+            out[p.arg] = (consts or {}).get(d.id) if isinstance(d, ast.Name) else None
     return out
 
 
@@ -79,7 +79,7 @@ def need(fn_map, name, relpath):
     return fn_map[name]
 
 
-def validate_wiring(rep, relpath, funcs, extra_args=''):
+def validate_wiring(rep, relpath, funcs, extra_args='', alphabets=None):
     """validate(): checksum(number...) is evaluated inside a catch-all that raises InvalidFormat; the number is returned
     exactly when that checksum equals T, otherwise InvalidChecksum is raised.  Accepted spellings: the comparison inside or
     after the try block; `if not ok: raise ...; return number` or `if ok: return number; raise ...`.  Returns T."""
@@ -95,11 +95,32 @@ def validate_wiring(rep, relpath, funcs, extra_args=''):
     if len(stmts) != 3 or not isinstance(stmts[0], ast.Try):
         raise bad
     tr = stmts[0]
-    if not (len(tr.body) == 1 and isinstance(tr.body[0], ast.Assign) and len(tr.body[0].targets) == 1 and isinstance(tr.body[0].targets[0], ast.Name)) \
+    # gates inside the try block (`if <condition on the number>: raise InvalidFormat()`) in front of the comparison: they may only
+    # reject strings that are not over the alphabet
+    gates = []
+    tbody = list(tr.body)
+    while tbody and isinstance(tbody[0], ast.If) and not tbody[0].orelse and len(tbody[0].body) == 1 and isinstance(tbody[0].body[0], ast.Raise):
+        gates.append(tbody.pop(0))
+    if not (len(tbody) == 1 and isinstance(tbody[0], ast.Assign) and len(tbody[0].targets) == 1 and isinstance(tbody[0].targets[0], ast.Name)) \
             or tr.orelse or tr.finalbody:
         raise bad
-    flag = tr.body[0].targets[0].id
-    value = tr.body[0].value
+    for gt in gates:
+        for alph in (alphabets or []):
+            hit = None
+            for a in alph:
+                for probe in (a, a + a, alph[0] + a):
+                    try:
+                        if ev(gt.test, {num: probe}):
+                            hit = hit or probe
+                    except Unsupported as e:
+                        raise AnalysisError('%s:%d the gate `%s` of validate() cannot be evaluated: %s' % (relpath, gt.lineno, src(gt.test), e))
+                    except Undecidable:
+                        pass
+            rep.check(hit is None, 'ALG.validate-gate', relpath, 'validate', '%s alphabet=%r' % (src(gt.test), alph), gt.lineno,
+                      'validate() rejects %r, a string over its own alphabet %r, before the checksum is looked at: a generated check character '
+                      'can be refused' % (hit, alph), what='gate `%s` passes every string over %r' % (src(gt.test), alph))
+    flag = tbody[0].targets[0].id
+    value = tbody[0].value
     # the accepting condition, with the flag replaced by what it holds
     s1, s2 = stmts[1], stmts[2]
     if isinstance(s1, ast.If) and not s1.orelse and len(s1.body) == 1 and isinstance(s1.body[0], ast.Raise) and isinstance(s2, ast.Return):
@@ -192,7 +213,7 @@ def iso_fold(rep, relpath, alphabets, T_expected_one=True, want_trans=False, lab
     fn = need(funcs, 'checksum', relpath)
     body = strip_doc(fn.body)
     num = fn.args.args[0].arg
-    dfl = defaults(fn)
+    dfl = defaults(fn, consts)
     # [V_m = len(alphabet)]  V_c = INIT ; for V_n in number: V_c = STEP ; return V_c
     pre = []
     i = 0
@@ -201,16 +222,28 @@ def iso_fold(rep, relpath, alphabets, T_expected_one=True, want_trans=False, lab
         i += 1
     rest = body[i:]
     b = match_stmts('V_c = E_init\nfor V_n in %s:\n    V_c = E_step\nreturn V_c' % num, rest)
+    split_last = None
+    if b is None:
+        # the last character treated apart: for n in number[:-1]: c = STEP ; last = number[-1:] ; return FINAL(c, last)
+        b2 = match_stmts('V_c = E_init\nfor V_n in %s[:-1]:\n    V_c = E_step\nV_last = %s[-1:]\nreturn E_final' % (num, num), rest)
+        if b2 is not None:
+            b = b2
+            split_last = (b2['V_last'].id, b2['E_final'])
     if b is None:
         done = iso_weighted(rep, relpath, funcs, consts, fn, pre, rest, alphabets, want_trans, label)
         if done is not None:
             return done
         raise AnalysisError('%s:%d checksum() is not a fold `c = INIT; for n in number: c = STEP; return c`' % (relpath, fn.lineno))
-    T = validate_wiring(rep, relpath, funcs)
+    alph_list = []
+    for al in alphabets:
+        al = al if al is not None else (dfl.get(fn.args.args[1].arg) if len(fn.args.args) > 1 else None)
+        if isinstance(al, str):
+            alph_list.append(al)
+    T = validate_wiring(rep, relpath, funcs, alphabets=alph_list)
     gen_name = 'calc_check_digit' if 'calc_check_digit' in funcs else 'calc_check_digits'
     gen = need(funcs, gen_name, relpath)
     gbody = strip_doc(gen.body)
-    gdfl = defaults(gen)
+    gdfl = defaults(gen, consts)
     results = {}
     H = helper_hooks(funcs, consts)
     for alpha in alphabets:
@@ -251,6 +284,21 @@ def iso_fold(rep, relpath, alphabets, T_expected_one=True, want_trans=False, lab
                 if t not in states:
                     states.add(t)
                     frontier.append(t)
+        if split_last is not None:
+            # the separate final step has to be the loop's step (then the function is the plain fold over the whole string)
+            for s in sorted(states):
+                for a in symbols:
+                    e2 = dict(env)
+                    e2[cvar], e2[split_last[0]] = s, a
+                    try:
+                        fin = ev(split_last[1], e2, H)
+                    except Unsupported as e:
+                        raise AnalysisError('%s:%d the final step %s uses a construct the evaluator does not know: %s' % (relpath, fn.lineno, src(split_last[1]), e))
+                    except Undecidable:
+                        fin = None
+                    rep.check(fin == delta.get((s, a)), 'ALG.step-total', relpath, 'checksum', '%s final step state=%r symbol=%r' % (label, s, a), fn.lineno,
+                              'the last character %r is folded to %r from state %r, the other positions to %r: not one and the same fold' % (a, fin, s, delta.get((s, a))),
+                              what='final step == step at (%r, %r)' % (s, a))
         # complete to the full residue ring so that SUB/PROP hold for states unreachable from INIT as well
         M = max(states) + 1 if all(isinstance(s, int) for s in states) else None
         if M is not None:
@@ -277,8 +325,20 @@ def iso_fold(rep, relpath, alphabets, T_expected_one=True, want_trans=False, lab
         if len(gen.args.args) > 1:
             genv[gen.args.args[1].arg] = alpha if alpha is not None else gdfl.get(gen.args.args[1].arg)
         gnum = gen.args.args[0].arg
+        ck_alpha_param = fn.args.args[1].arg if len(fn.args.args) > 1 else None
+        wrong_alpha = []
+
+        def ck_hook(_s):
+            def h(*a, **k):
+                # the generator has to evaluate checksum() over the alphabet it was given itself
+                if ck_alpha_param is not None:
+                    used = a[1] if len(a) > 1 else k.get(ck_alpha_param, dfl.get(ck_alpha_param))
+                    if used != ''.join(symbols):
+                        wrong_alpha.append(used)
+                return _s
+            return h
         for s in sorted(states):
-            hooks = dict(H, checksum=(lambda *a, _s=s, **k: _s))
+            hooks = dict(H, checksum=ck_hook(s))
             e2 = dict(genv)
             e2[gnum] = ''
             try:
@@ -301,6 +361,10 @@ def iso_fold(rep, relpath, alphabets, T_expected_one=True, want_trans=False, lab
                       'generated check character %r for payload state %r leads to state %r, accepted state is %r; other accepted characters: %r'
                       % (val, s, delta.get((s, val)) if isinstance(val, str) else None, T, others),
                       what='%s: gen(state %r) = %r is the unique accepted check character' % (lab, s, val))
+        if wrong_alpha:
+            rep.fail('ALG.GEN', relpath, gen_name, '%s checksum() alphabet' % lab, gen.lineno,
+                     'called with the alphabet %r the generator computes checksum() over %r: the interim value is reduced with another modulus than the '
+                     'one the check character is picked with' % (''.join(symbols), wrong_alpha[0]))
         results[''.join(symbols)] = (len(states), len(symbols))
     return results
 
@@ -763,15 +827,39 @@ def damm(rep):
     rep.check(not und, 'ALG.TRANS', relpath, 'checksum', 'damm table', ck.lineno,
               'adjacent transposition undetected: state %d digits %d,%d' % tuple((und or [(0, 0, 0, 0)])[0][1:]), what='damm: 10 x 90 swaps detected')
     gen = need(funcs, 'calc_check_digit', relpath)
-    g = match_stmts('return str(checksum(%s, table=%s))' % (gen.args.args[0].arg, gen.args.args[1].arg), strip_doc(gen.body))
-    if g is None:
-        g = match_stmts('return str(checksum(%s, %s))' % (gen.args.args[0].arg, gen.args.args[1].arg), strip_doc(gen.body))
-    if g is None:
-        raise AnalysisError('%s:%d calc_check_digit() is not str(checksum(number))' % (relpath, gen.lineno))
-    for s in R:
-        sols = [d for d in R if t[s][d] == T]
-        rep.check(sols == [s], 'ALG.GEN', relpath, 'calc_check_digit', 'payload state %d' % s, gen.lineno,
-                  'generator returns %d, accepted check digits after state %d are %r' % (s, s, sols), what='state %d -> digit %d unique' % (s, s))
+    # the generator is evaluated for every payload state with checksum() standing for that state, once with the default table
+    # and once with a second table of the same kind (the default one with the digits 1 and 2 exchanged: still a quasigroup with
+    # zero diagonal): it has to hand its own table on to checksum() and return the digit that leads to the accepted state
+    from ..minieval import run as run_body
+    gnum = gen.args.args[0].arg
+    gtab = gen.args.args[1].arg if len(gen.args.args) > 1 else None
+    perm = {0: 0, 1: 2, 2: 1}
+    pi = lambda x: perm.get(x, x)
+    t2 = tuple(tuple(pi(t[pi(i)][pi(j)]) for j in R) for i in R)
+    for label, table_arg, eff in (('default table', None, t), ('caller table', t2, t2)):
+        for s_ in R:
+            used = []
+
+            def hook(*a, **k):
+                used.append(k.get(tab, a[1] if len(a) > 1 else None))
+                return s_
+            env = dict(consts)
+            env[gnum] = ''
+            if gtab:
+                env[gtab] = table_arg
+            try:
+                out = run_body(strip_doc(gen.body), env, {'checksum': hook})
+            except Unsupported as e:
+                raise AnalysisError('%s:%d calc_check_digit() uses a construct the evaluator does not know: %s' % (relpath, gen.lineno, e))
+            except Undecidable:
+                out = None
+            passed = used and all((u is table_arg) or (u == table_arg) for u in used)
+            sols = [d for d in R if eff[s_][d] == T]
+            good = isinstance(out, str) and out.isdigit() and len(out) == 1 and sols == [int(out)] and passed
+            rep.check(good, 'ALG.GEN', relpath, 'calc_check_digit', '%s payload state %d' % (label, s_), gen.lineno,
+                      'with the %s the generator returns %r for payload state %d (checksum() was given %s), accepted check digits are %r'
+                      % (label, out, s_, 'the same table' if passed else 'another table than its own', sols),
+                      what='%s: state %d -> digit %s unique' % (label, s_, out))
     rep.check(init == T, 'ALG.GEN', relpath, 'checksum', 'initial state', ck.lineno, 'initial state %r differs from accepted state %r' % (init, T))
 
 
